@@ -5,6 +5,8 @@ import (
 	"errors"
 	"sort"
 	"strings"
+	"sync"
+	"time"
 
 	cedar "github.com/cedar-policy/cedar-go"
 	"github.com/cedar-policy/cedar-go/types"
@@ -74,7 +76,25 @@ func sortedList(head string, items []*Sx) *Sx {
 	return L(append([]*Sx{A(head)}, items...)...)
 }
 
-// batch: <store> <template req> (vars (name value...)...) (policies policy...) (mode none|failat k|cancelat k)
+// expiringCtx is a context that ends the way a deadline ends it (Err() = context.DeadlineExceeded), at a moment the harness chooses
+type expiringCtx struct {
+	context.Context
+	done chan struct{}
+	once sync.Once
+}
+
+func (c *expiringCtx) expire()               { c.once.Do(func() { close(c.done) }) }
+func (c *expiringCtx) Done() <-chan struct{} { return c.done }
+func (c *expiringCtx) Err() error {
+	select {
+	case <-c.done:
+		return context.DeadlineExceeded
+	default:
+		return nil
+	}
+}
+
+// batch: <store> <template req> (vars (name value...)...) (policies policy...) (mode none|failat k|cancelat k|expireat k)
 func runBatch(payload []*Sx) *Sx {
 	em := storeFromSx(payload[0])
 	rq := reqFromSx(payload[1])
@@ -102,8 +122,20 @@ func runBatch(payload []*Sx) *Sx {
 	if mode != "none" {
 		k = int(mustInt64(payload[4].List[2].Atom))
 	}
+	var ctx context.Context
 	ctx, cancel := context.WithCancel(context.Background())
 	defer cancel()
+	if mode == "expireat" {
+		ec := &expiringCtx{Context: context.Background(), done: make(chan struct{})}
+		ctx, cancel = ec, ec.expire
+		if k == 0 {
+			// a real deadline that has already passed
+			var c2 context.CancelFunc
+			ctx, c2 = context.WithDeadline(context.Background(), time.Now().Add(-time.Second))
+			defer c2()
+		}
+		mode = "cancelat"
+	}
 	if mode == "cancelat" && k == 0 {
 		cancel()
 	}
@@ -132,7 +164,7 @@ func runBatch(payload []*Sx) *Sx {
 		switch {
 		case errors.Is(err, cbErr):
 			status = "callback"
-		case errors.Is(err, context.Canceled):
+		case errors.Is(err, context.Canceled), errors.Is(err, context.DeadlineExceeded):
 			status = "cancelled"
 		case strings.Contains(m, "unbound variable"):
 			status = "unbound"
